@@ -1,0 +1,218 @@
+//! Constructors of crate-private operators for the verification harness (feature `verif`).
+//! Add-only: nothing here is used by the engine itself.
+
+use std::marker::PhantomData;
+
+use crate::block::{BatchMode, NextStrategy};
+use crate::operator::end::End;
+use crate::operator::fold::Fold;
+use crate::operator::keyed_fold::KeyedFold;
+use crate::operator::merge::MergeElement;
+use crate::operator::reorder::Reorder;
+use crate::operator::route::{FilterFn, RoutingEnd};
+use crate::operator::start::{BinaryElement, Start};
+use crate::operator::zip::Zip;
+use crate::operator::{
+    Data, ExchangeData, ExchangeDataKey, Operator, StreamElement, Timestamp,
+};
+use crate::scheduler::{BlockId, ExecutionMetadata};
+use crate::stream::KeyedItem;
+
+/// Public mirror of the crate-private `BinaryElement`.
+#[derive(Clone, Debug, PartialEq, Eq)]
+pub enum Bin<L, R> {
+    Left(L),
+    Right(R),
+    LeftEnd,
+    RightEnd,
+}
+
+/// Public mirror of `NextStrategy`.
+#[derive(Clone, Copy, Debug)]
+pub enum Strategy<Out> {
+    OnlyOne,
+    Random,
+    GroupBy(fn(&Out) -> u64),
+    All,
+}
+
+/// A minimal mapping operator (the crate's `Map` constructor is private to `operator`).
+#[derive(Clone)]
+pub struct MapOut<Op, F, O> {
+    prev: Op,
+    f: F,
+    _o: PhantomData<O>,
+}
+
+impl<Op: Operator, F, O> std::fmt::Display for MapOut<Op, F, O> {
+    fn fmt(&self, f: &mut std::fmt::Formatter<'_>) -> std::fmt::Result {
+        write!(f, "{} -> MapOut", self.prev)
+    }
+}
+
+impl<Op, F, O> Operator for MapOut<Op, F, O>
+where
+    Op: Operator,
+    F: Fn(Op::Out) -> O + Clone + Send,
+    O: Send + Clone,
+{
+    type Out = O;
+    fn setup(&mut self, metadata: &mut ExecutionMetadata) {
+        self.prev.setup(metadata)
+    }
+    fn next(&mut self) -> StreamElement<O> {
+        self.prev.next().map(&self.f)
+    }
+    fn structure(&self) -> crate::structure::BlockStructure {
+        self.prev.structure()
+    }
+}
+
+pub fn map_out<Op: Operator, F: Fn(Op::Out) -> O + Clone + Send, O: Send + Clone>(
+    prev: Op,
+    f: F,
+) -> MapOut<Op, F, O> {
+    MapOut {
+        prev,
+        f,
+        _o: PhantomData,
+    }
+}
+
+pub fn fold<O, F, Op>(prev: Op, init: O, f: F) -> impl Operator<Out = O>
+where
+    O: Send + Clone,
+    F: Fn(&mut O, Op::Out) + Send + Clone,
+    Op: Operator,
+{
+    Fold::new(prev, init, f)
+}
+
+pub fn keyed_fold<O, F, Op>(
+    prev: Op,
+    init: O,
+    f: F,
+) -> impl Operator<Out = (<Op::Out as KeyedItem>::Key, O)>
+where
+    Op: Operator,
+    Op::Out: KeyedItem,
+    F: Fn(&mut O, <Op::Out as KeyedItem>::Value) + Send + Clone,
+    O: Send + Clone,
+{
+    KeyedFold::new(prev, init, f)
+}
+
+pub fn reorder<Op>(prev: Op) -> impl Operator<Out = Op::Out>
+where
+    Op: Operator,
+    Op::Out: Data,
+{
+    Reorder::new(prev)
+}
+
+/// `IntervalJoin` on top of an operator producing `(key, Left(l) | Right(r))` given as `Bin`.
+#[cfg(feature = "timestamp")]
+pub fn interval_join<Key, L, R, Op>(
+    prev: Op,
+    lower: Timestamp,
+    upper: Timestamp,
+) -> impl Operator<Out = (Key, (L, R))>
+where
+    Key: ExchangeDataKey,
+    L: ExchangeData,
+    R: ExchangeData,
+    Op: Operator<Out = (Key, Bin<L, R>)>,
+{
+    let prev = map_out(prev, |(k, b): (Key, Bin<L, R>)| {
+        (
+            k,
+            match b {
+                Bin::Left(l) => MergeElement::Left(l),
+                Bin::Right(r) => MergeElement::Right(r),
+                _ => panic!("interval_join: only Left/Right are valid"),
+            },
+        )
+    });
+    crate::operator::interval_join::IntervalJoin::new(prev, lower, upper)
+}
+
+pub fn start_single<T: ExchangeData>(prev_block_id: BlockId) -> impl Operator<Out = T> {
+    Start::single(prev_block_id, None)
+}
+
+fn bin<L: Data, R: Data>(b: BinaryElement<L, R>) -> Bin<L, R> {
+    match b {
+        BinaryElement::Left(l) => Bin::Left(l),
+        BinaryElement::Right(r) => Bin::Right(r),
+        BinaryElement::LeftEnd => Bin::LeftEnd,
+        BinaryElement::RightEnd => Bin::RightEnd,
+    }
+}
+
+pub fn start_binary<L: ExchangeData, R: ExchangeData>(
+    left_block_id: BlockId,
+    right_block_id: BlockId,
+    left_cache: bool,
+    right_cache: bool,
+) -> impl Operator<Out = Bin<L, R>> {
+    map_out(
+        Start::multiple(left_block_id, right_block_id, left_cache, right_cache, None),
+        bin::<L, R>,
+    )
+}
+
+pub fn zip<L: ExchangeData, R: ExchangeData>(
+    left_block_id: BlockId,
+    right_block_id: BlockId,
+) -> impl Operator<Out = (L, R)> {
+    Zip::new(left_block_id, right_block_id, false, false, None)
+}
+
+fn strategy<Out: ExchangeData>(s: Strategy<Out>) -> NextStrategy<Out, fn(&Out) -> u64> {
+    match s {
+        Strategy::OnlyOne => NextStrategy::OnlyOne,
+        Strategy::Random => NextStrategy::Random,
+        Strategy::GroupBy(f) => NextStrategy::GroupBy(f, PhantomData),
+        Strategy::All => NextStrategy::All,
+    }
+}
+
+/// The real `End` operator on top of `prev`.
+pub fn end<Op>(
+    prev: Op,
+    s: Strategy<Op::Out>,
+    batch_mode: BatchMode,
+    feedback_block: Option<BlockId>,
+    ignore_blocks: &[BlockId],
+) -> impl Operator<Out = ()>
+where
+    Op: Operator,
+    Op::Out: ExchangeData,
+{
+    let mut e = End::new(prev, strategy(s), batch_mode);
+    if let Some(b) = feedback_block {
+        e.mark_feedback(b);
+    }
+    for b in ignore_blocks {
+        e.ignore_destination(*b);
+    }
+    e
+}
+
+/// The real `RoutingEnd` operator on top of `prev`.
+pub fn routing_end<Op>(
+    prev: Op,
+    routes: Vec<(BlockId, fn(&Op::Out) -> bool)>,
+    s: Strategy<Op::Out>,
+    batch_mode: BatchMode,
+) -> impl Operator<Out = ()>
+where
+    Op: Operator,
+    Op::Out: ExchangeData,
+{
+    let routes = routes
+        .into_iter()
+        .map(|(b, f)| (b, FilterFn::from(f)))
+        .collect();
+    RoutingEnd::new(prev, routes, strategy(s), batch_mode)
+}
